@@ -263,6 +263,57 @@ EDGE = \
           for f in ('7.1', '0.001') for n in (49, 50, 51, 52, 55, 80) for m in (0, 60) for x in ([], [['--output-basic-input', '@TMP@/o.mini']])
     ]
 
+def pole_cases ():
+    """ lumped loads whose denominator polynomial is exactly zero in floating point at the frequency of the run (the
+        documented hazard 'trap with R = 0 at resonance'), found with plain float arithmetic: x = L C within a few
+        ulp of 1 / w^2 with fl (x w^2) == 1, split exactly into L and C = 2^-33; and denominators whose only term
+        underflows to zero """
+    out = []
+    W   = ['-w', '10,0,0,0,0,0,10.0838,0.0127']
+    for f in (7.1, 7.15, 7.0, 14.2, 3.65, 28.5, 1.9, 10.1, 21.3, 1.8):
+        w  = 2 * np.pi * f * 1e6
+        w2 = -(((1j * w) * (1j * w)).real)
+        xs = []
+        for k in range (-8, 9):
+            y = 1.0 / w2
+            for i in range (abs (k)):
+                y = float (np.nextafter (y, np.inf if k > 0 else 0.0))
+            if 1.0 + y * -w2 == 0.0 or y * (w * w) == 1.0:
+                xs.append (y)
+        for x in xs [:2]:
+            C = 2.0 ** -33
+            L = x / C
+            for r in ('0', '1', '1e-300'):
+                out.append ([['-f', repr (f)], W, ['--trap-load', '%s,%r,%r' % (r, L, C)], ['--attach-load', '1,3']])
+            out.append ([['-f', repr (f)], W, ['--laplace-load-a', '1,0,%r' % x], ['--laplace-load-b', '50'], ['--attach-load', '1,3']])
+            out.append ([['-f', repr (f)], W, ['--laplace-load-a', '1,0,%r' % x], ['--laplace-load-b', '0,0,1'], ['--attach-load', '1,all']])
+    for f in ('1e-10', '1e-300', '5e-324'):
+        out.append ([['-f', f], W, ['--rlc-load', '0,0,5e-324'], ['--attach-load', '1,3']])
+        out.append ([['-f', f], W, ['--rlc-load', '0,0,1e-310'], ['--attach-load', '1,3']])
+        out.append ([['-f', f], W, ['--laplace-load-a', '0,5e-324'], ['--laplace-load-b', '1'], ['--attach-load', '1,3']])
+        out.append ([['-f', f], W, ['--laplace-load-a', '0,0,1e-300'], ['--laplace-load-b', '1,1,1'], ['--attach-load', '1,3']])
+        out.append ([['-f', f], W, ['--trap-load', '0,1e-300,1e-300'], ['--attach-load', '1,3']])
+    out.append ([['-f', '7.1'], W, ['--laplace-load-a', '0'], ['--laplace-load-b', '1'], ['--attach-load', '1,3']])
+    out.append ([['-f', '7.1'], W, ['--laplace-load-a', '0,0,0'], ['--laplace-load-b', '0,0,0'], ['--attach-load', '1,3']])
+    out.append ([['-f', '7.1'], W, ['--rlc-load', '0,0,0'], ['--attach-load', '1,3']])
+    return out
+# end def pole_cases
+
+def dead_source_cases ():
+    """ every source at zero (or vanishing) voltage: impedance 0 / 0, together with every way of asking for no field """
+    out = []
+    for v in ('0', '0j', '-0.0', '1e-320', '1e-200', '0+0j'):
+        for srcs in ([['--excitation-pulse', '3']], [['--excitation-pulse', '3'], ['--excitation-pulse', '7']]):
+            vv = [['--excitation-voltage', v]] * len (srcs)
+            for fld in ( [['--option', 'none']], [['--theta', '0,10,0']], [['--phi', '0,10,0']], [['--option', 'far-field-absolute'], ['--theta', '45,0,0'], ['--phi', '0,0,-1']]
+                       , [['--near-field', '1,1,1,1,1,1,0,1,1']], [['--near-field', '1,1,1,1,1,1,2,-1,2']], [['--near-field', '1,1,1,1,1,1,1,1,1']], []
+                       , [['--option', 'none'], ['--output-basic-input', '@TMP@/o.mini']], [['--option', 'none'], ['--output-cmdline', '@TMP@/o.pym']]):
+                out.append (E1 + srcs + vv + fld)
+    return out
+# end def dead_source_cases
+
+EDGE = EDGE + pole_cases () + dead_source_cases ()
+
 def plan (tier, seed):
     n = 3000 if tier == 'quick' else 100000
     return [dict (kind = 'fixed', k = k) for k in range (len (FIXED))] + [dict (kind = 'edge', k = k) for k in range (len (EDGE))] + enum_cases () + ladder_cases (tier) + [dict (i = i, seed = seed) for i in range (n)]
